@@ -331,9 +331,22 @@ class Gen:
         return self.view_operand(P, sh, want_mutable)
 
     # ---------------------------------------------------------- scalars
-    def scalar(self, P, divisor=False):
-        """a scalar factor: symbolic input or constant (divisors: symbols and non zero integers only)"""
+    @staticmethod
+    def element(o, k):
+        """C++ access to the k-th logical component of an operand, and its storage cell"""
+        if o.shape[0] == "mat":
+            return "%s(%d, %d)" % (o.cxx, k // o.shape[2], k % o.shape[2]), ("cell", o.cells[k])
+        return "%s(%d)" % (o.cxx, k), ("cell", o.cells[k])
+
+    def scalar(self, P, divisor=False, dest=None):
+        """a scalar factor: symbolic input, constant (divisors: symbols and non zero integers only), or an element
+        of the destination / of another operand (an lvalue scalar living in the storage being assigned)"""
         rng = self.rng
+        if dest is not None and dest.shape[0] in ("vec", "mat", "st", "t") and rng.random() < 0.18:
+            pool = [o for o in P.operands if o.shape[0] in ("vec", "mat", "st", "t")]
+            o = dest if (rng.random() < 0.7 or not pool) else rng.choice(pool)
+            P.ops.add("scalar:element")
+            return self.element(o, rng.randrange(len(o.cells)))
         r = rng.random()
         if divisor and 0.4 <= r < 0.55:
             r = 0.9
@@ -401,7 +414,7 @@ class Gen:
             e, te = self.expr(P, sh, depth - 1, dest)
             f, tf = self.expr(P, sh, depth - 1, dest)
             return "(%s) %s (%s)" % (e, "+" if k == "add" else "-", f), (k, te, tf)
-        s, ts = self.scalar(P, divisor=(k == "divs"))
+        s, ts = self.scalar(P, divisor=(k == "divs"), dest=dest)
         e, te = self.expr(P, sh, depth - 1, dest)
         if k == "smul":
             return "%s * (%s)" % (s, e), ("smul", ts, te)
@@ -426,7 +439,7 @@ class Gen:
             r = rng.random()
             if r < 0.12:
                 op = rng.choice(["*=", "/="])
-                s, ts = self.scalar(P, divisor=(op == "/="))
+                s, ts = self.scalar(P, divisor=(op == "/="), dest=dest)
                 P.ops.add(op)
                 P.stmts.append(("%s %s %s;" % (dest.cxx, op, s), dest, op, ts))
             else:
@@ -551,6 +564,85 @@ class Gen:
     @staticmethod
     def cellop(storage, k, cxx):
         return Operand(cxx, ("cell",), [(storage, k)], True, "cell")
+
+    def x_scalar_alias_objects(self, P):
+        """the scalar operand of a lazy scalar*object / object*scalar / object/scalar node is an element of the
+        destination: eager meaning = the scalar is read once, before the assignment"""
+        L = lambda o: ("leaf", o)
+        E = self.element
+        mk = lambda sh: (lambda o: (P.operands.append(o), o)[1])(self.owned(P, sh))
+        u, v, w = mk(("vec", 4)), mk(("vec", 3)), mk(("vec", 3))
+        m, n = mk(("mat", 2, 3)), mk(("mat", 2, 3))
+        s = mk(("st", 3))
+        t, r = mk(("t", 2)), mk(("t", 2))
+        p, q = mk(("vec", 3)), mk(("vec", 3))
+        c, tc = E(u, 0)
+        P.stmts.append(("%s = %s / %s;" % (u.cxx, u.cxx, c), u, "=", ("divs", L(u), tc)))
+        c, tc = E(v, 1)
+        P.stmts.append(("%s = %s * %s;" % (v.cxx, c, w.cxx), v, "=", ("smul", tc, L(w))))
+        c, tc = E(m, 0)
+        P.stmts.append(("%s = %s / %s - %s;" % (m.cxx, m.cxx, c, n.cxx), m, "=", ("sub", ("divs", L(m), tc), L(n))))
+        c, tc = E(s, 2)
+        P.stmts.append(("%s = %s * %s;" % (s.cxx, s.cxx, c), s, "=", ("smul", tc, L(s))))
+        c, tc = E(t, 3)
+        d, td = E(t, 1)
+        P.stmts.append(("%s = %s * %s + %s / %s;" % (t.cxx, c, t.cxx, r.cxx, d), t, "=",
+                        ("add", ("smul", tc, L(t)), ("divs", L(r), td))))
+        c, tc = E(p, 1)
+        P.stmts.append(("%s += %s * %s;" % (p.cxx, c, q.cxx), p, "+=", ("smul", tc, L(q))))
+        c, tc = E(q, 1)
+        P.stmts.append(("%s *= %s;" % (q.cxx, c), q, "*=", tc))
+        c, tc = E(w, 2)
+        P.stmts.append(("%s /= %s;" % (w.cxx, c), w, "/=", tc))
+        P.ops |= {"scalar:element", "=", "+=", "*=", "/=", "smul", "divs"}
+
+    def x_scalar_alias_views(self, P):
+        """the same through views: the scalar is read through the view or through the storage it maps"""
+        L = lambda o: ("leaf", o)
+        E = self.element
+        b = self.buffer(P, 7)
+        a1 = Operand(P.fresh("a"), ("vec", 4), [(b, 1 + k) for k in range(4)], True, "view:map")
+        P.decls.append("auto %s = map<tvector<4, Sym>>(%s + 1);" % (a1.cxx, b))
+        c, tc = E(a1, 0)
+        P.stmts.append(("%s = %s / %s;" % (a1.cxx, a1.cxx, c), a1, "=", ("divs", L(a1), tc)))
+        b2 = self.buffer(P, 9)
+        a2 = Operand(P.fresh("a"), ("st", 2), [(b2, 1 + 2 * k) for k in range(4)], True, "view:strided_coalesced")
+        P.decls.append("auto %s = map_strided<stensor<2, Sym>>(%s + 1, 2);" % (a2.cxx, b2))
+        c, tc = E(a2, 3)
+        P.stmts.append(("%s = %s * %s;" % (a2.cxx, c, a2.cxx), a2, "=", ("smul", tc, L(a2))))
+        m = self.owned(P, ("mat", 3, 3))
+        n = self.owned(P, ("mat", 3, 2))
+        a3 = Operand(P.fresh("a"), ("vec", 3), [(m.storage, 3 + k) for k in range(3)], True, "view:row")
+        P.decls.append("auto %s = %s.row_view<1>();" % (a3.cxx, m.cxx))
+        c, tc = E(m, 4)                                  # m(1, 1): second cell of the row, read through the matrix
+        P.stmts.append(("%s = %s / %s;" % (a3.cxx, a3.cxx, c), a3, "=", ("divs", L(a3), tc)))
+        a4 = Operand(P.fresh("a"), ("vec", 3), [(n.storage, 2 * k) for k in range(3)], True, "view:col")
+        P.decls.append("auto %s = %s.column_view<0>();" % (a4.cxx, n.cxx))
+        c, tc = E(n, 4)                                  # n(2, 0): last cell of the column
+        d, td = E(a4, 0)
+        P.stmts.append(("%s = %s * %s - %s * %s;" % (a4.cxx, c, a4.cxx, a3.cxx, d), a4, "=",
+                        ("sub", ("smul", tc, L(a4)), ("smul", td, L(a3)))))
+        b3 = self.buffer(P, 6)
+        pos = [4, 0, 3]
+        a5 = Operand(P.fresh("a"), ("vec", 3), [(b3, k) for k in pos], True, "view:coalesced")
+        P.decls.append("std::array<Sym*, 3> %s_p{%s};" % (a5.cxx, ", ".join("&%s[%d]" % (b3, k) for k in pos)))
+        P.decls.append("auto %s = map<tvector<3, Sym>>(%s_p);" % (a5.cxx, a5.cxx))
+        c, tc = E(a5, 1)
+        P.stmts.append(("%s = %s * %s;" % (a5.cxx, a5.cxx, c), a5, "=", ("smul", tc, L(a5))))
+        w = self.owned(P, ("vec", 9))
+        va = P.fresh("va")
+        P.decls.append("auto %s = map<2, tvector<3, Sym>, 1, 4>(%s);" % (va, w.cxx))
+        a6 = Operand(P.fresh("a"), ("vec", 3), [(w.storage, 5 + k) for k in range(3)], True, "view:viewsarray")
+        a7 = Operand(P.fresh("a"), ("vec", 3), [(w.storage, 1 + k) for k in range(3)], True, "view:viewsarray")
+        P.decls.append("auto %s = %s[1];" % (a6.cxx, va))
+        P.decls.append("auto %s = %s[0];" % (a7.cxx, va))
+        c, tc = E(w, 6)                                  # second cell of the mapped object, read through the tvector
+        P.stmts.append(("%s = %s / %s - %s;" % (a6.cxx, a6.cxx, c, a7.cxx), a6, "=", ("sub", ("divs", L(a6), tc), L(a7))))
+        c, tc = E(a7, 2)
+        P.stmts.append(("%s -= %s * %s;" % (a7.cxx, a6.cxx, c), a7, "-=", ("smul", tc, L(a6))))
+        P.operands += [a1, a2, m, n, a3, a4, a5, w, a6, a7]
+        P.kinds |= {"view:map", "view:strided_coalesced", "view:row", "view:col", "view:coalesced", "view:viewsarray"}
+        P.ops |= {"scalar:element", "=", "-=", "smul", "divs"}
 
     def set_cell(self, P, o, k, rhs_cxx, tree):
         """`o[k] = rhs;` (vectors) / `o(i, j) = rhs;` (matrices): one storage cell receives one scalar"""
@@ -821,7 +913,7 @@ class Gen:
 FORCED = ["a=a+b", "a+=2*a", "s=deviator(s)", "v=m*v", "v=v*m", "m=m*n", "t=transpose(t)", "view=f(storage)",
           "shifted-overlap", "row=row+col", "a/=2", "rt:vector", "rt:matrix", "rt:runtime_array", "rt:fsarray",
           "x:expr-access", "x:diadic-det-cross", "x:ctors-vec", "x:ctors-mat", "x:array-index", "x:runtime-view",
-          "x:const-views", "x:view-assign"]
+          "x:const-views", "x:view-assign", "x:scalar-alias-objects", "x:scalar-alias-views"]
 
 
 # ------------------------------------------------------------------ eager semantics
@@ -836,10 +928,12 @@ def eval_tree(t, state):
         a, b = eval_tree(t[1], state), eval_tree(t[2], state)
         f = add if k == "add" else sub
         return [f(x, y) for x, y in zip(a, b)]
-    if k == "smul":
-        return [mul(t[1], x) for x in eval_tree(t[2], state)]
+    if k == "smul":    # the scalar (possibly a storage cell, even a cell of the destination) is read once, before assigning
+        sc = subst(t[1], state)
+        return [mul(sc, x) for x in eval_tree(t[2], state)]
     if k == "divs":
-        return [div(x, t[2]) for x in eval_tree(t[1], state)]
+        sc = subst(t[2], state)
+        return [div(x, sc) for x in eval_tree(t[1], state)]
     if k == "matvec":
         a, x = eval_tree(t[1], state), eval_tree(t[2], state)
         K = len(x)
@@ -970,7 +1064,8 @@ def run_eager(P):
     for (_, dest, op, t) in P.stmts:
         if op in ("*=", "/="):
             cur = [state[c] for c in dest.cells]
-            new = [mul(x, t) if op == "*=" else div(x, t) for x in cur]
+            sc = subst(t, state)
+            new = [mul(x, sc) if op == "*=" else div(x, sc) for x in cur]
             P.hazards.append([])
         else:
             vals = eval_tree(t, state)
